@@ -136,6 +136,34 @@ func regexGroups(pattern string) ([]reGroup, error) {
 	return out, nil
 }
 
+// regexTopShape renders the top-level sequence of the expression.
+func regexTopShape(pattern string) string {
+	re, err := syntax.Parse(pattern, syntax.Perl)
+	if err != nil {
+		return "unparseable"
+	}
+	subs := []*syntax.Regexp{re}
+	if re.Op == syntax.OpConcat {
+		subs = re.Sub
+	}
+	var out []string
+	for _, r := range subs {
+		switch r.Op {
+		case syntax.OpBeginText:
+			out = append(out, "^")
+		case syntax.OpEndText:
+			out = append(out, "$")
+		case syntax.OpCapture:
+			out = append(out, "( )")
+		case syntax.OpLiteral:
+			out = append(out, "lit("+string(r.Rune)+")")
+		default:
+			out = append(out, r.Op.String())
+		}
+	}
+	return strings.Join(out, " ")
+}
+
 func describeGroup(r *syntax.Regexp) reGroup {
 	g := reGroup{min: 1, max: 1}
 	inner := r
@@ -222,6 +250,10 @@ func ruleTFmt(c *Ctx) {
 		c.Undecided("T-fmt", "reader/regex", reader.Pos(), "constant regular expression of the reader not found or not parseable")
 		return
 	}
+	// whole-text match: ^ group ':' group group group group $ and nothing else
+	shape := regexTopShape(pattern)
+	c.Check(shape == "^ ( ) lit(:) ( ) ( ) ( ) ( ) $", "T-fmt", "reader/regex-anchored", patPos, "the reader's expression matches the whole text: "+shape,
+		"the reader's expression is not of the form ^(prefix):(..)(..)(data)(checksum)$ — it is "+shape+": text before or after a valid encoding would be accepted")
 	c.Covered["T-fmt:verbs"] = len(verbs)
 	c.Covered["T-fmt:groups"] = len(groups)
 	c.Check(len(verbs) == 4 && len(groups) == 5, "T-fmt", "shape", patPos,
@@ -245,6 +277,16 @@ func ruleTFmt(c *Ctx) {
 		d := dest[i+1]
 		c.Check(d.base == 16, "T-fmt", key+"/reader-base", reader.Pos(), "reader parses the digits base 16",
 			fmt.Sprintf("writer emits %s in base 16 but the reader parses group %d with %s (base %d)", v.field, i+1, d.parser, d.base))
+		// every value the writer can emit (00..ff) must be inside the parser's range
+		rangeOK := true
+		switch d.parser {
+		case "strconv.ParseInt":
+			rangeOK = d.bits == 0 || d.bits >= 9
+		case "strconv.ParseUint":
+			rangeOK = d.bits == 0 || d.bits >= 8
+		}
+		c.Check(rangeOK, "T-fmt", key+"/reader-range", reader.Pos(), "the reader's integer parser accepts all of 00..ff",
+			fmt.Sprintf("the reader parses group %d with %s bitSize %d: two hex digits reach 255, values outside that bit size are rejected although the writer emits them", i+1, d.parser, d.bits))
 		c.Check(d.field == v.field, "T-fmt", key+"/same-field", reader.Pos(), "writer and reader agree that position "+fmt.Sprint(i+1)+" is "+v.field,
 			fmt.Sprintf("writer puts %s at position %d but the reader stores group %d into %s: no round trip unless both values are equal", v.field, i+1, i+1, d.field))
 	}
@@ -298,6 +340,7 @@ func lengthAtomsOnField(fn *ssa.Function, field string) map[string]bool {
 
 type groupUse struct {
 	parser string
+	bits   int // strconv bitSize argument (0 = int), -1 when not a strconv parser
 	base   int
 	field  string
 }
@@ -338,6 +381,14 @@ func readerGroupUse(fn *ssa.Function) map[int]groupUse {
 						case "encoding/hex.DecodeString":
 							gu.base = 16
 						case "strconv.ParseInt", "strconv.ParseUint":
+							gu.bits = -1
+							if len(x.Call.Args) > 2 {
+								if bk, ok := x.Call.Args[2].(*ssa.Const); ok {
+									if bv, ok := constValInt(bk.Value); ok {
+										gu.bits = int(bv.Int64())
+									}
+								}
+							}
 							if len(x.Call.Args) > 1 {
 								if bk, ok := x.Call.Args[1].(*ssa.Const); ok {
 									if bv, ok := constValInt(bk.Value); ok {
